@@ -404,9 +404,9 @@ def coq_common(case, out):
     return coq_cell(case, out), cz(cu), cz(lo), cz(hi), cz(100000), xyz
 
 
-def nat_or_bad(i):
+def nat_or_bad(i, n):
     # negative indices cannot be written as nat; they are invalid anyway: any out-of-range nat does
-    return cnat(i if i >= 0 else 10 ** 9)
+    return cnat(i if 0 <= i < n + 50 else n + 50)
 
 
 # ----------------------------------------------------------------------------- running cases
@@ -478,6 +478,7 @@ def run_cases(ctx, cases, replaying=False):
         outs += ctx.run_impl("neigh_impl.py", {"cases": chunk})["out"]
     nb_idx = [i for i, c in enumerate(cases) if c["api"] == "nb"]
     nl_idx = [i for i, c in enumerate(cases) if c["api"] == "nl"]
+    ctx.log("implementation ran on %d frames" % len(cases))
     for i, (c, o) in enumerate(zip(cases, outs)):
         if not lower_triangular(o):
             ctx.break_("correspondence:cell-not-lower-triangular", "unitcell_vectors %s" % o["box"])
@@ -491,12 +492,12 @@ def run_cases(ctx, cases, replaying=False):
             cell, cu, lo, hi, d, xyz = coq_common(c, o)
             n = len(c["xyz"])
             hay = c["hay"] if c["hay"] is not None else list(range(n))
-            inp = "(mkNb %s %s %s %s %s %s %s %s)" % (cell, cu, lo, hi, d, xyz, clist([nat_or_bad(x) for x in c["query"]]),
-                                                   clist([nat_or_bad(x) for x in hay]))
+            inp = "(mkNb %s %s %s %s %s %s %s %s)" % (cell, cu, lo, hi, d, xyz, clist([nat_or_bad(x, n) for x in c["query"]]),
+                                                   clist([nat_or_bad(x, n) for x in hay]))
             if o["err"] == "ValueError":
                 exp = "None"
             elif o["err"] is not None:
-                exp = "(Some [%s])" % cnat(10 ** 9)
+                exp = "(Some [%s])" % cnat(n + 51)
             else:
                 exp = "(Some %s)" % clist([cnat(x) for x in o["res"]])
             coq.append((inp, exp))
@@ -505,6 +506,7 @@ def run_cases(ctx, cases, replaying=False):
         if errs:
             ctx.break_("correspondence:coqc-evaluation(nb)", "\n".join(errs))
         nb_bad = {nb_idx[b] for b in bad}
+    ctx.log("compute_neighbors compared with the model: %d differ" % len(nb_bad))
     # ---- compute_neighborlist: model (two variants) vs implementation
     cur_bad, fix_bad = set(), set()
     if nl_idx:
@@ -529,6 +531,7 @@ def run_cases(ctx, cases, replaying=False):
                 cur_bad.add(i)
             if code in (2, 3):
                 fix_bad.add(i)
+    ctx.log("compute_neighborlist compared with the model: %d differ from as-found, %d from repaired" % (len(cur_bad), len(fix_bad)))
     # which variant describes the implementation on ALL voxel-list cases of this run
     variant = None
     if nl_idx:
